@@ -14,7 +14,7 @@ Statements (tuples):
   ('begin', body, [(handler_name, block), ...])
 Expressions:
   ('int', n) ('str', s) ('bool', b) ('null',) ('var', name) ('bin', op, a, b) ('call', fname, [args])
-  ('div0',) -> 1 / zero      ('fatal',) -> sv.at(9)    ('err', k) -> error@k
+  ('div0',) -> 1 / zero      ('fatal',) -> tv.at(9)    ('err', k) -> error@k
 Functions: {'name': (params, body)}
 """
 
@@ -75,7 +75,7 @@ def etext(e):
     if k == "div0":
         return "(1 / zero)"
     if k == "fatal":
-        return "sv.at(9)"
+        return "tv.at(9)"
     if k == "err":
         return "error@%d" % e[1]
     raise ValueError(e)
@@ -90,6 +90,8 @@ def stext(s, ind=0):
         return pad + "print %s;" % s[1]
     if k == "printe":
         return pad + "print %s;" % etext(s[1])
+    if k == "printh":
+        return pad + 'print "%s" error@1 ":" error@2;' % s[1]
     if k == "let":
         return pad + "%s = %s;" % (s[1], etext(s[2]))
     if k == "eval":
@@ -250,6 +252,9 @@ class Ref:
             self.out.append(self.fmt(env.get(s[1])))
         elif k == "printe":
             self.out.append(self.fmt(self.ev(s[1], env, depth)))
+        elif k == "printh":
+            ce = self.cur_error
+            self.out.append(s[1] + (ce.name if ce else "") + ":" + (ce.msg if ce else ""))
         elif k == "let":
             env[s[1]] = self.ev(s[2], env, depth)
         elif k == "eval":
